@@ -38,7 +38,7 @@ impl Sess {
     /// define a named operand; `rel` is the JSON fragment describing its relation to earlier names
     pub fn def(&mut self, name: &str, mp: &IMp, k: i32, rel: &str) {
         let g64 = run::to_geo::<f64>(mp, k);
-        let g32 = run::to_geo::<f32>(mp, k.clamp(-60, 60));
+        let g32 = run::to_geo::<f32>(mp, if k >= 1000 { k } else { k.clamp(-60, 60) });
         let mag = run::magnitude(&[mp]);
         self.mag = self.mag.max(mag);
         let s = run::snap(&g64, k, mag);
@@ -173,6 +173,15 @@ impl Sess {
 
 pub const BASE: &str = "\"rel\":\"base\"";
 
+/// family "rectw" = axis-parallel operands presented in a non-representable frame (int / d)
+fn frame_for(fam: &str, rng: &mut Rng) -> i32 {
+    if fam == "rectw" {
+        *rng.pick(&[1010, 1003, 1007, 1010])
+    } else {
+        0
+    }
+}
+
 fn keep_one(polys: Vec<(Vec<P>, Vec<Vec<P>>)>, rng: &mut Rng) -> Vec<(Vec<P>, Vec<Vec<P>>)> {
     if polys.len() <= 1 {
         return polys;
@@ -207,6 +216,7 @@ pub struct Opts {
 pub fn sess_five(sid: u64, fam: &str, seed: u64, o: &Opts) -> Sess {
     let mut rng = Rng::new(seed);
     let mut s = Sess::new(sid, "five", fam, seed);
+    let fr = frame_for(fam, &mut rng);
     let (a, b) = loop {
         let (ca, cb) = canon_pair(fam, o.kmax, &mut rng);
         let a = gen::present(&ca, gen::RANDOMISED, &mut rng);
@@ -215,8 +225,8 @@ pub fn sess_five(sid: u64, fam: &str, seed: u64, o: &Opts) -> Sess {
             break (a, b);
         }
     };
-    s.def("A", &a, 0, BASE);
-    s.def("B", &b, 0, BASE);
+    s.def("A", &a, fr, BASE);
+    s.def("B", &b, fr, BASE);
     for (op, _) in run::OPS {
         s.call(op, "A", "B", 'm', 'm', false);
     }
@@ -234,6 +244,7 @@ pub fn sess_five(sid: u64, fam: &str, seed: u64, o: &Opts) -> Sess {
 pub fn sess_single(sid: u64, fam: &str, seed: u64, o: &Opts) -> Sess {
     let mut rng = Rng::new(seed);
     let mut s = Sess::new(sid, "single", fam, seed);
+    let fr = frame_for(fam, &mut rng);
     let (a, b) = loop {
         let (mut ca, mut cb) = canon_pair(fam, o.kmax, &mut rng);
         if rng.chance(1, 4) {
@@ -248,8 +259,8 @@ pub fn sess_single(sid: u64, fam: &str, seed: u64, o: &Opts) -> Sess {
             break (a, b);
         }
     };
-    s.def("A", &a, 0, BASE);
-    s.def("B", &b, 0, BASE);
+    s.def("A", &a, fr, BASE);
+    s.def("B", &b, fr, BASE);
     let f32_ = rng.chance(1, 5);
     for (op, _) in run::OPS {
         s.call(op, "A", "B", 'p', 'p', f32_);
@@ -261,6 +272,7 @@ pub fn sess_single(sid: u64, fam: &str, seed: u64, o: &Opts) -> Sess {
 pub fn sess_repr(sid: u64, fam: &str, seed: u64, o: &Opts) -> Sess {
     let mut rng = Rng::new(seed);
     let mut s = Sess::new(sid, "repr", fam, seed);
+    let fr = frame_for(fam, &mut rng);
     let (ca, cb) = loop {
         let (mut ca, mut cb) = canon_pair(fam, o.kmax, &mut rng);
         if rng.chance(1, 2) {
@@ -275,11 +287,11 @@ pub fn sess_repr(sid: u64, fam: &str, seed: u64, o: &Opts) -> Sess {
             break (ca, cb);
         }
     };
-    s.def("A", &gen::present(&ca, gen::PLAIN, &mut rng), 0, BASE);
-    s.def("B", &gen::present(&cb, gen::PLAIN, &mut rng), 0, BASE);
+    s.def("A", &gen::present(&ca, gen::PLAIN, &mut rng), fr, BASE);
+    s.def("B", &gen::present(&cb, gen::PLAIN, &mut rng), fr, BASE);
     let wild = gen::Present { rotate: true, reverse: true, shuffle: true, dups: true, close: false };
-    s.def("A2", &gen::present(&ca, wild, &mut rng), 0, "\"rel\":\"rewrite\",\"of\":\"A\"");
-    s.def("B2", &gen::present(&cb, wild, &mut rng), 0, "\"rel\":\"rewrite\",\"of\":\"B\"");
+    s.def("A2", &gen::present(&ca, wild, &mut rng), fr, "\"rel\":\"rewrite\",\"of\":\"A\"");
+    s.def("B2", &gen::present(&cb, wild, &mut rng), fr, "\"rel\":\"rewrite\",\"of\":\"B\"");
     for (op, _) in run::OPS {
         s.call(op, "A", "B", 'm', 'm', false);
         s.call(op, "A2", "B2", 'm', 'm', false);
@@ -362,6 +374,7 @@ fn far_part(a: &IMp, b: &IMp, side: u32, rng: &mut Rng) -> IPoly {
 pub fn sess_far(sid: u64, fam: &str, seed: u64, o: &Opts) -> Sess {
     let mut rng = Rng::new(seed);
     let mut s = Sess::new(sid, "far", fam, seed);
+    let fr = frame_for(fam, &mut rng);
     let (a, mut b) = loop {
         let (ca, cb) = canon_pair(fam, o.kmax, &mut rng);
         let a = gen::present(&ca, gen::RANDOMISED, &mut rng);
@@ -384,16 +397,16 @@ pub fn sess_far(sid: u64, fam: &str, seed: u64, o: &Opts) -> Sess {
             b = gen::map_mp(&b, &|p| (p.0 + d.0, p.1 + d.1));
         }
     }
-    s.def("A", &a, 0, BASE);
-    s.def("B", &b, 0, BASE);
+    s.def("A", &a, fr, BASE);
+    s.def("B", &b, fr, BASE);
     let side = rng.below(4) as u32;
     let p = far_part(&a, &b, side, &mut rng);
     let mut ap = a.clone();
     ap.push(p.clone());
     let mut bp = b.clone();
     bp.push(p);
-    s.def("Ap", &ap, 0, &format!("\"rel\":\"farpart\",\"of\":\"A\",\"side\":{}", side));
-    s.def("Bp", &bp, 0, &format!("\"rel\":\"farpart\",\"of\":\"B\",\"side\":{}", side));
+    s.def("Ap", &ap, fr, &format!("\"rel\":\"farpart\",\"of\":\"A\",\"side\":{}", side));
+    s.def("Bp", &bp, fr, &format!("\"rel\":\"farpart\",\"of\":\"B\",\"side\":{}", side));
     for (op, _) in run::OPS {
         s.call(op, "A", "B", 'm', 'm', false);
         s.call(op, "Ap", "B", 'm', 'm', false);
@@ -406,6 +419,7 @@ pub fn sess_far(sid: u64, fam: &str, seed: u64, o: &Opts) -> Sess {
 pub fn sess_f32(sid: u64, fam: &str, seed: u64, o: &Opts) -> Sess {
     let mut rng = Rng::new(seed);
     let mut s = Sess::new(sid, "f32", fam, seed);
+    let fr = frame_for(fam, &mut rng);
     let (a, b) = loop {
         let (ca, cb) = canon_pair(fam, o.kmax, &mut rng);
         let a = gen::present(&ca, gen::RANDOMISED, &mut rng);
@@ -414,8 +428,8 @@ pub fn sess_f32(sid: u64, fam: &str, seed: u64, o: &Opts) -> Sess {
             break (a, b);
         }
     };
-    s.def("A", &a, 0, BASE);
-    s.def("B", &b, 0, BASE);
+    s.def("A", &a, fr, BASE);
+    s.def("B", &b, fr, BASE);
     for (op, _) in run::OPS {
         s.call(op, "A", "B", 'm', 'm', false);
         s.call(op, "A", "B", 'm', 'm', true);
@@ -428,6 +442,7 @@ pub fn sess_f32(sid: u64, fam: &str, seed: u64, o: &Opts) -> Sess {
 pub fn sess_chain(sid: u64, fam: &str, seed: u64, o: &Opts, depth3: bool) -> Sess {
     let mut rng = Rng::new(seed);
     let mut s = Sess::new(sid, "chain", fam, seed);
+    let fr = frame_for(fam, &mut rng);
     let (a, b, c) = loop {
         let f = gen::family(fam, o.kmax, &mut rng);
         let a = gen::present(&gen::operand(&f, false, &mut rng), gen::RANDOMISED, &mut rng);
@@ -437,9 +452,9 @@ pub fn sess_chain(sid: u64, fam: &str, seed: u64, o: &Opts, depth3: bool) -> Ses
             break (a, b, c);
         }
     };
-    s.def("A", &a, 0, BASE);
-    s.def("B", &b, 0, BASE);
-    s.def("C", &c, 0, BASE);
+    s.def("A", &a, fr, BASE);
+    s.def("B", &b, fr, BASE);
+    s.def("C", &c, fr, BASE);
     let ops = ["int", "union", "diff", "xor"];
     // a seeded subset of the 16 x 3 x 2 chains per session keeps sessions small; all pairs occur across seeds
     for op in ops {
@@ -466,6 +481,7 @@ pub fn sess_chain(sid: u64, fam: &str, seed: u64, o: &Opts, depth3: bool) -> Ses
 pub fn sess_pure(sid: u64, fam: &str, seed: u64, o: &Opts) -> Sess {
     let mut rng = Rng::new(seed);
     let mut s = Sess::new(sid, "pure", fam, seed);
+    let fr = frame_for(fam, &mut rng);
     let (a, b, c) = loop {
         let f = gen::family(fam, o.kmax, &mut rng);
         let a = gen::present(&gen::operand(&f, false, &mut rng), gen::RANDOMISED, &mut rng);
@@ -475,9 +491,9 @@ pub fn sess_pure(sid: u64, fam: &str, seed: u64, o: &Opts) -> Sess {
             break (a, b, c);
         }
     };
-    s.def("A", &a, 0, BASE);
-    s.def("B", &b, 0, BASE);
-    s.def("C", &c, 0, BASE);
+    s.def("A", &a, fr, BASE);
+    s.def("B", &b, fr, BASE);
+    s.def("C", &c, fr, BASE);
     let mut calls = vec![];
     for (op, _) in run::OPS {
         s.call(op, "A", "B", 'm', 'm', false);
